@@ -2,4 +2,5 @@ let () =
   match Array.to_list Sys.argv with
   | _ :: "queue" :: mode :: _ -> Qdriver.main mode
   | _ :: "pool" :: args -> Pdriver.main args
+  | _ :: "ctrl" :: args -> Cdriver.main args
   | _ -> prerr_endline "usage: driver (queue|pool) (model|monitor <Cxx>) < trace"; exit 2
